@@ -250,8 +250,24 @@ class Gen:
         n = r.choice([0, 1, 2, 3, 5])
         items = [(self.gen_string() or "k", self.literal(depth + 1, budget)) for _ in range(n)]
         trail = "," if n and r.random() < 0.3 else ""
-        return ("{%s%s}" % (", ".join("%s: %s" % (rust_str(k_), v[0]) for k_, v in items), trail), "{%s}" % ",".join("%s:%s" % (json_text_str(k_), v[1]) for k_, v in items))
 
+        def key_tokens(k_):
+            # a key is one token tree: a string literal, or an expression - a constant, a variable, a parenthesised
+            # expression (seeded C14-K); HV_KEY_CONST / hv_key_var are declared by the program around every literal
+            c = r.random()
+            if c < 0.70:
+                return rust_str(k_), k_
+            if c < 0.80:
+                return "HV_KEY_CONST", HV_KEY_CONST
+            if c < 0.90:
+                return "hv_key_var", HV_KEY_VAR
+            return "(format!(\"{}{}\", %s, 1 + 1))" % rust_str(k_), k_ + "2"
+        keyed = [(key_tokens(k_), v) for k_, v in items]
+        return ("{%s%s}" % (", ".join("%s: %s" % (kt[0], v[0]) for kt, v in keyed), trail), "{%s}" % ",".join("%s:%s" % (json_text_str(kt[1]), v[1]) for kt, v in keyed))
+
+
+HV_KEY_CONST = "key const"
+HV_KEY_VAR = "key\"var"
 
 PRELUDE = '''// generated by /verif/driver/c14gen.py - do not edit
 #![allow(dead_code, unused_imports, clippy::all)]
@@ -260,6 +276,46 @@ use humphrey_json::Value;
 
 static mut CHECKS: u64 = 0;
 static mut FAILS: u64 = 0;
+
+const HV_KEY_CONST: &str = "key const";
+
+#[derive(FromJson, IntoJson, PartialEq, Debug, Clone)]
+struct HvRow {
+    id: u32,
+    tags: Vec<String>,
+}
+
+#[derive(FromJson, IntoJson, PartialEq, Debug, Clone)]
+struct HvTable {
+    rows: Vec<HvRow>,
+    grid: Vec<Vec<i32>>,
+    gaps: Vec<Option<Vec<bool>>>,
+}
+
+/// Documents with many empty containers, through the typed mapping and the text (seeded C14-L).
+fn tables() {
+    for n in [0usize, 1, 2, 100, 253, 254, 255, 256, 257, 300, 1000] {
+        for filled in [false, true] {
+            let t = HvTable {
+                rows: (0..n).map(|i| HvRow { id: i as u32, tags: if filled && i % 3 == 0 { vec!["t".to_string()] } else { vec![] } }).collect(),
+                grid: (0..n).map(|i| if filled && i % 5 == 0 { vec![i as i32] } else { vec![] }).collect(),
+                gaps: (0..n / 2).map(|i| if i % 2 == 0 { Some(vec![]) } else { None }).collect(),
+            };
+            let j = t.to_json();
+            let expected = Value::Object(vec![
+                ("rows".to_string(), Value::Array(t.rows.iter().map(|r| Value::Object(vec![("id".to_string(), Value::Number(r.id as f64)), ("tags".to_string(), Value::Array(r.tags.iter().map(|s| Value::String(s.clone())).collect()))])).collect())),
+                ("grid".to_string(), Value::Array(t.grid.iter().map(|g| Value::Array(g.iter().map(|x| Value::Number(*x as f64)).collect())).collect())),
+                ("gaps".to_string(), Value::Array(t.gaps.iter().map(|g| match g { Some(v) => Value::Array(v.iter().map(|b| Value::Bool(*b)).collect()), None => Value::Null }).collect())),
+            ]);
+            check(j == expected, "shape:table", &format!("table of {} rows (filled: {}): shape differs", n, filled));
+            check(HvTable::from_json(&j).ok().as_ref() == Some(&t), "roundtrip-value:table", &format!("table of {} rows (filled: {}): from_json(to_json(t)) != t", n, filled));
+            let s = humphrey_json::to_string(&t);
+            check(humphrey_json::from_str::<HvTable, _>(&s).ok().as_ref() == Some(&t), "roundtrip-text:table", &format!("table of {} rows (filled: {}), {} bytes of text with {} empty arrays: from_str(to_string(t)) = {:?}", n, filled, s.len(), s.matches("[]").count(), humphrey_json::from_str::<HvTable, _>(&s).err()));
+            let p = humphrey_json::to_string_pretty(&t);
+            check(humphrey_json::from_str::<HvTable, _>(&p).ok().as_ref() == Some(&t), "roundtrip-pretty:table", &format!("table of {} rows (filled: {}): from_str(to_string_pretty(t)) != t", n, filled));
+        }
+    }
+}
 
 fn check(ok: bool, class: &str, detail: &str) {
     unsafe {
@@ -284,6 +340,7 @@ def gen_program(seed, index, nvalues, nliterals, wide=False):
         out.append(g.decl(t))
         out.append("")
     out.append("fn main() {")
+    out.append("    tables();")
     nv = 0
     # coverage values first: every variant of the enums marked cover_all, and all-None values of the holders
     forced = []
@@ -332,6 +389,8 @@ def gen_program(seed, index, nvalues, nliterals, wide=False):
         budget = [40]
         tok, text = g.literal(0, budget)
         out.append("    {")
+        out.append("        let hv_key_var = String::from(%s);" % rust_str(HV_KEY_VAR))
+        out.append("        let _ = &hv_key_var;")
         out.append("        let lit: Value = json!(%s);" % tok)
         out.append("        let parsed = Value::parse(%s);" % rust_str(text))
         out.append("        check(parsed.as_ref().ok() == Some(&lit), \"json-macro\", &format!(\"json!({}) = {:?} but the text parses to {:?}\", %s, lit, parsed));" % rust_str(tok[:120]))
@@ -424,7 +483,7 @@ def run(pid, tier, seed, work):
             checks += int(summary["checks"])
     shutil.rmtree(crate, ignore_errors=True)
     res = {"evaluations": checks, "distinct_nontrivial": distinct,
-           "rule": "generated Rust programs (1..6 types each: named structs 1..8 fields, tuple structs 1..6 fields, unit enums 1..8 variants, via derive and via json_map!; field types bool, all integer widths, f32, f64, String, Option<T>, Vec<T>, nested generated types; rename strings with blanks, quotes, backslashes, non-ASCII, JSON-special characters, empty) with 250 random values each: JSON shape vs an independently constructed Value, from_json(to_json(v)) == v, from_str(to_string(v)) == v, pretty round trip; 150 generated json! literals each (null/arrays/objects/expressions in every position, trailing commas, depth <= 6, <= 40 elements) vs Value::parse of the equivalent text; plus one probe program with full-range 64/128-bit integers. evaluations = assertions executed inside the programs; distinct = values + literals",
+           "rule": "generated Rust programs (1..6 types each: named structs 1..8 fields, tuple structs 1..6 fields, unit enums 1..8 variants, via derive and via json_map!; field types bool, all integer widths, f32, f64, String, Option<T>, Vec<T>, nested generated types; rename strings with blanks, quotes, backslashes, non-ASCII, JSON-special characters, empty) with 250 random values each: JSON shape vs an independently constructed Value, from_json(to_json(v)) == v, from_str(to_string(v)) == v, pretty round trip; 150 generated json! literals each (null/arrays/objects/expressions in every position incl. object keys given as constants, variables and parenthesised expressions, trailing commas, depth <= 6, <= 40 elements) vs Value::parse of the equivalent text; in every program also tables of 0..1000 rows whose vectors are empty or sparsely filled (up to ~2500 empty arrays per document) through shape, value, text and pretty round trips; plus one probe program with full-range 64/128-bit integers. evaluations = assertions executed inside the programs; distinct = values + literals",
            "samples": samples,
            "extra": {"programs_run": programs, "assertions_executed": checks, "assertion_failures": fails, "values_checked": values, "json_literals_checked": literals},
            "violations": list(viols.values()), "inconclusive": [], "harness_errors": herrs[:4],
